@@ -261,6 +261,17 @@ where
 
 //=================================================================
 
+#[cfg(probminhash_verif)]
+impl<D> ProbMinHash3aSha<D>
+where
+    D: Clone + Eq + Debug + Sig,
+{
+    /// verification hook : read-only copy of the per-position register values
+    pub fn verif_registers(&self) -> Vec<f64> {
+        (0..self.m).map(|k| self.maxvaluetracker.get_value(k)).collect()
+    }
+}
+
 #[cfg(test)]
 mod tests {
 
